@@ -71,6 +71,23 @@ impl<T, D> Inner<T, D> {
         }),
     //@end
 
+    //@obligation props=C11 :: extent getter: width() reports the view's own width dims.0 (the w of the h rows of w elements the index contracts speak about)
+    //@extract core/src/util/buf.rs :: impl<T, D> Inner<T, D> { :: width ret=r
+        ensures r == self.dims.0,
+    //@end
+    //@obligation props=C11 :: extent getter: height() reports the view's own height dims.1
+    //@extract core/src/util/buf.rs :: impl<T, D> Inner<T, D> { :: height ret=r
+        ensures r == self.dims.1,
+    //@end
+    //@obligation props=C11 :: extent getter: dims() reports exactly (width, height) of the view
+    //@extract core/src/util/buf.rs :: impl<T, D> Inner<T, D> { :: dims ret=r
+        ensures r == self.dims,
+    //@end
+    //@obligation props=C11 :: extent getter: stride() reports the row pitch used by to_index
+    //@extract core/src/util/buf.rs :: impl<T, D> Inner<T, D> { :: stride ret=r
+        ensures r == self.stride,
+    //@end
+
     //@obligation props=C11 :: is_contiguous is true exactly when the view's cells form one gap-free run (pitch = width, or at most one row, or zero width)
     //@extract core/src/util/buf.rs :: impl<T, D> Inner<T, D> { :: is_contiguous ret=r
         ensures r <==> (self.stride == self.dims.0 || self.dims.1 <= 1 || self.dims.0 == 0),
